@@ -29,31 +29,30 @@ def GoodI (toks : List String) (p : Pos) : Prop :=
 /-- `UpdateRefWithSchema` with the schema at the end of the `$ref`'s own chain preserves the meaning of every good
     position and of the rewritten position itself; below it, the new bundle shows what the old one shows below the
     end of the chain -/
-theorem updateRefWithSchema_inline_preserves (d d' : J) (key : String) (sch : J)
-    (h : updateRefWithSchema d key sch = .ok d')
+theorem setAt_inline_preserves (d d' : J) (toks : List String) (sch : J)
+    (hset : setAt d toks sch = some d')
     (T : List (String × Pos)) (rest : Bundle) (a1 : J)
-    (hget : Spec.Pointer.get d (keyTokens key) = some a1) (hv1 : Doc.refStr a1 ≠ "")
+    (hget : Spec.Pointer.get d (toks) = some a1) (hv1 : Doc.refStr a1 ≠ "")
     (etoks : List String) (hsch : Spec.Pointer.get d etoks = some sch) (hobj : ∃ m, sch = .obj m)
     (hne : Doc.refStr sch = "")
     (q0 : Pos) (ht1 : T.lookup (Doc.refStr a1) = some q0)
     (hreach : Reaches (bundleWith d T rest) q0 ("", etoks))
-    (hcanon : AllCanon (keyTokens key)) (hkeys : keysCanon d = true)
+    (hcanon : AllCanon (toks)) (hkeys : keysCanon d = true)
     (hgoodT : ∀ doc s q, (bundleWith d T rest).target doc s = some q →
-      GoodI (keyTokens key) q ∨ q = ("", keyTokens key))
+      GoodI (toks) q ∨ q = ("", toks))
     (hops : Nat) (had : RSetting.Adequate (bundleWith d T rest) hops) (hpos : 0 < hops) :
-    (∀ n p, GoodI (keyTokens key) p ∨ p = ("", keyTokens key) →
+    (∀ n p, GoodI (toks) p ∨ p = ("", toks) →
       unfold (bundleWith d T rest) hops n p = unfold (bundleWith d' T rest) hops n p) ∧
     (∀ n t, unfold (bundleWith d T rest) hops n ("", etoks ++ t) =
-      unfold (bundleWith d' T rest) hops n ("", keyTokens key ++ t)) := by
-  have hset := updateRefWithSchema_shape d key sch d' h
+      unfold (bundleWith d' T rest) hops n ("", toks ++ t)) := by
   have hobj1 := refStr_obj hv1
   let S : ISetting := {
     b1 := bundleWith d T rest
     b2 := bundleWith d' T rest
-    kp := ("", keyTokens key)
+    kp := ("", toks)
     e := ("", etoks)
     q0 := q0
-    Good := GoodI (keyTokens key)
+    Good := GoodI (toks)
     a1 := a1
     ne := sch
     htarget := fun _ _ => rfl
@@ -64,7 +63,7 @@ theorem updateRefWithSchema_inline_preserves (d d' : J) (key : String) (sch : J)
       · obtain ⟨pd, pp⟩ := p
         simp only at hp1; subst hp1
         rw [node_root, node_root]
-        have hgp : AllCanon pp ∧ ¬ keyTokens key <+: pp := by
+        have hgp : AllCanon pp ∧ ¬ toks <+: pp := by
           rcases hg with hg | hg
           · exact absurd rfl hg
           · exact hg
@@ -75,7 +74,7 @@ theorem updateRefWithSchema_inline_preserves (d d' : J) (key : String) (sch : J)
           cases hx : Spec.Pointer.get d pp with
           | none => exact Or.inl ⟨rfl, by rw [he, hx]⟩
           | some a => exact Or.inr ⟨a, a, rfl, by rw [he, hx], rfl, shapeEq_refl a⟩
-        rcases list_cases pp (keyTokens key) with heq | ⟨s, hs, hpre⟩ | ⟨s, _, hext⟩ | ⟨c, x, y, rx, ry, hxy, h1, h2⟩
+        rcases list_cases pp (toks) with heq | ⟨s, hs, hpre⟩ | ⟨s, _, hext⟩ | ⟨c, x, y, rx, ry, hxy, h1, h2⟩
         · exact absurd (by rw [heq]; exact List.prefix_refl _) hgp.2
         · rw [hpre] at hset hget
           obtain ⟨j, j', hj, hj', hsj⟩ := get_setAt_ancestor d pp s _ d' hset
@@ -108,7 +107,7 @@ theorem updateRefWithSchema_inline_preserves (d d' : J) (key : String) (sch : J)
     hene := hne
     hcopy := by
       intro t
-      show (bundleWith d' T rest).node ("", keyTokens key ++ t) = (bundleWith d T rest).node ("", etoks ++ t)
+      show (bundleWith d' T rest).node ("", toks ++ t) = (bundleWith d T rest).node ("", etoks ++ t)
       rw [node_root, node_root, get_append, get_append, get_setAt_self _ _ _ _ hset, hsch]
     hgoodT := hgoodT
     hgoodC := by
@@ -117,14 +116,14 @@ theorem updateRefWithSchema_inline_preserves (d d' : J) (key : String) (sch : J)
       · obtain ⟨xd, xp⟩ := x
         simp only at he1; subst he1
         rw [node_root] at hn
-        have hgp : AllCanon xp ∧ ¬ keyTokens key <+: xp := by
+        have hgp : AllCanon xp ∧ ¬ toks <+: xp := by
           rcases hg with hg | hg
           · exact absurd rfl hg
           · exact hg
         have hchild : ∀ k, CanonTok k →
-            GoodI (keyTokens key) (child ("", xp) k) ∨ child ("", xp) k = ("", keyTokens key) := by
+            GoodI (toks) (child ("", xp) k) ∨ child ("", xp) k = ("", toks) := by
           intro k hk
-          by_cases hpre : keyTokens key <+: xp ++ [k]
+          by_cases hpre : toks <+: xp ++ [k]
           · rcases List.prefix_concat_iff.1 hpre with heq | hp
             · exact Or.inr (by simp [child, heq])
             · exact absurd hp hgp.2
@@ -146,5 +145,25 @@ theorem updateRefWithSchema_inline_preserves (d d' : J) (key : String) (sch : J)
         · intro _ _ i; exact Or.inl (Or.inl (by simpa [child] using he1)) }
   have := S.inline_preserves hops had hpos
   exact ⟨this.1, fun n t => this.2 n t⟩
+
+/-- the same for `Replace.updateRefWithSchema` on an analyzer key -/
+theorem updateRefWithSchema_inline_preserves (d d' : J) (key : String) (sch : J)
+    (h : updateRefWithSchema d key sch = .ok d')
+    (T : List (String × Pos)) (rest : Bundle) (a1 : J)
+    (hget : Spec.Pointer.get d (keyTokens key) = some a1) (hv1 : Doc.refStr a1 ≠ "")
+    (etoks : List String) (hsch : Spec.Pointer.get d etoks = some sch) (hobj : ∃ m, sch = .obj m)
+    (hne : Doc.refStr sch = "")
+    (q0 : Pos) (ht1 : T.lookup (Doc.refStr a1) = some q0)
+    (hreach : Reaches (bundleWith d T rest) q0 ("", etoks))
+    (hcanon : AllCanon (keyTokens key)) (hkeys : keysCanon d = true)
+    (hgoodT : ∀ doc s q, (bundleWith d T rest).target doc s = some q →
+      GoodI (keyTokens key) q ∨ q = ("", keyTokens key))
+    (hops : Nat) (had : RSetting.Adequate (bundleWith d T rest) hops) (hpos : 0 < hops) :
+    (∀ n p, GoodI (keyTokens key) p ∨ p = ("", keyTokens key) →
+      unfold (bundleWith d T rest) hops n p = unfold (bundleWith d' T rest) hops n p) ∧
+    (∀ n t, unfold (bundleWith d T rest) hops n ("", etoks ++ t) =
+      unfold (bundleWith d' T rest) hops n ("", keyTokens key ++ t)) :=
+  setAt_inline_preserves d d' (keyTokens key) sch (updateRefWithSchema_shape d key sch d' h) T rest a1 hget hv1 etoks hsch
+    hobj hne q0 ht1 hreach hcanon hkeys hgoodT hops had hpos
 
 end Proofs.InlineModel
